@@ -721,7 +721,7 @@ pub fn run(ctx: &mut Ctx) {
         actor emits arrives once, from its socket, at the address its destination Id encodes; a timer fires only \
         while armed and not before arm time + lower bound of its latest arming; every handler sees the state the \
         previous one left (hash chain). (id) random and edge IPv4 addresses / 48-bit ids round-trip and are \
-        bijective. Non-trivial: the run delivered >= 3 messages and fired >= 1 timer. Scripts also contain identical deadlines for two timers, slow handlers (Sleep), cancels from timeout handlers, set-then-cancel within one handler, unserialisable Sends followed by ordinary ones and 10-45 kB valid datagrams; timers count as armed from the END of the arming handler; every datagram carries a run id so that stray traffic of concurrent scenarios does not deserialise.".into();
+        bijective. Non-trivial: the run delivered >= 3 messages and fired >= 1 timer. Scripts also contain identical deadlines for two timers, slow handlers (Sleep), cancels from timeout handlers, set-then-cancel within one handler, unserialisable Sends followed by ordinary ones and 10-45 kB valid datagrams; timers count as armed from the END of the arming handler; every datagram carries a run id so that stray traffic of concurrent scenarios does not deserialise. A third of the scenarios place actors at 127.0.0.2-5 as well (sometimes two on one port number): the source address of every datagram is compared with the sender's Id, and well-formed datagrams sent to an actor's port at a loopback address without an actor must not be handed to anybody; garbage includes empty datagrams.".into();
     ctx.assumptions = vec![
         "loopback UDP may drop under load: datagrams that never arrive are bounded-progress misses (counted, not violations)".into(),
         "no upper bound on timer latency is asserted; the arm time used is the handler's start time, which is earlier than the real arming".into(),
